@@ -1968,8 +1968,21 @@ impl TransactionBuilder {
                         .unwrap_or(false)
                 }
                 let mut change_estimator = input_total.checked_sub(&output_total)?;
-                if !has_assets(change_estimator.multiasset()) {
+                // the same goes for such entries next to real tokens: they are not written into change outputs
+                // (an output may not list a zero quantity)
+                if let Some(ma) = change_estimator.multiasset() {
+                    let mut listed = MultiAsset::new();
+                    for (policy, assets) in ma.0.iter() {
+                        for (name, quantity) in assets.0.iter() {
+                            if !quantity.is_zero() {
+                                listed.set_asset(policy, name, quantity);
+                            }
+                        }
+                    }
                     change_estimator = Value::new(&change_estimator.coin());
+                    if listed.len() > 0 {
+                        change_estimator.set_multiasset(&listed);
+                    }
                 }
                 if has_assets(change_estimator.multiasset()) {
                     fn will_adding_asset_make_output_overflow(
@@ -2113,7 +2126,7 @@ impl TransactionBuilder {
                         change_assets.push(output.amount.multiasset().unwrap());
                         Ok(change_assets)
                     }
-                    let mut change_left = input_total.checked_sub(&output_total)?;
+                    let mut change_left = change_estimator.clone();
                     let mut new_fee = fee.clone();
                     // we might need multiple change outputs for cases where the change has many asset types
                     // which surpass the max UTXO size limit
